@@ -114,13 +114,13 @@ Definition prim_fn (p : prim) (vs : list Z) : Z :=
   | PConcatMSBF r ins => ConcatenateMSBF_propagate (snd r) (combine (map snd ins) vs)
   | PConcatLSBF r ins => ConcatenateLSBF_propagate (snd r) (combine (map snd ins) vs)
   | PRepeat r _ => Repeat_propagate (snd r) (v 0%nat)
-  | PXor2 r a b => Xor2_m mid_a (snd a) (snd b) (snd r) (v 0%nat) (v 1%nat)     (* under the guard r <= a every width policy of C08 agrees *)
+  | PXor2 r a b => Xor2_m mid_max (snd a) (snd b) (snd r) (v 0%nat) (v 1%nat)   (* the repaired constructor: Mid/XOut/YOut are max(wa,wb,wr) wide *)
   | PNand2 r a _ => Nand2_m (snd a) (snd r) (v 0%nat) (v 1%nat)
   | PNor2 r a _ => Nor2_m (snd a) (snd r) (v 0%nat) (v 1%nat)
   | PAnd r _ => And_m (snd r) vs
   | POr r _ => Or_m (snd r) vs
   | PNor r ins => Nor_m (match ins with x :: _ => snd x | [] => 0 end) (snd r) vs
-  | PEqual r a b => Equal_m mid_a eqw_a (snd a) (snd b) (v 0%nat) (v 1%nat)     (* equal operand widths (guard): likewise *)
+  | PEqual r a b => Equal_m mid_max eqw_max (snd a) (snd b) (v 0%nat) (v 1%nat) (* the repaired constructor: the xor wire is max(wa,wb) wide *)
   | PEqualConst r a k => EqualConstant_m (snd a) (snd r) k (v 0%nat)
   | PDiv r _ _ => Div_propagate (snd r) 0 (v 0%nat) (v 1%nat)                  (* rnd := 0 = a / 0 of VSem *)
   | PMod r _ _ => if v 1%nat =? 0 then Wire_put (snd r) (v 0%nat)              (* a % 0 of VSem (Z.rem a 0 = a) *)
@@ -136,20 +136,17 @@ Definition prim_leaf (p : prim) : cleaf :=
 Definition prim_guard (p : prim) : bool :=
   match p with
   | PShl _ _ n | PShr _ _ n => (0 <=? n) && (n <? 2 ^ 31)
-  | PMux2 _ sel _ _ => snd sel =? 1
   | PRange _ _ hi lo => (0 <=? lo) && (lo <=? hi)
   | PBit _ a k => (0 <=? k) && (k <? snd a) && (k <? 2 ^ 31)
   | PConstant _ v => (- 2 ^ 31 <? v) && (v <? 2 ^ 31)
-  | PSignExtend r a => (snd a <? snd r) && (snd a - 1 <? 2 ^ 31)
-  | PConcatMSBF _ ins | PConcatLSBF _ ins => match ins with [] => false | _ => true end
+  | PSignExtend r a => (snd a - 1 <? 2 ^ 31)
   | PRepeat _ i => snd i =? 1
-  (* guards of C08's ladder theorems: Xor2's result no wider than a (C08_xor2_wide_refuted otherwise); Nor2/Nor: every operand fits
-     the Mid wire, which has the first operand's width; Equal: equal operand widths; EqualConstant: the constant fits the operand *)
-  | PXor2 r a _ => snd r <=? snd a
+  (* guards of C08's ladder theorems: Nor2/Nor: every operand fits the Mid wire, which has the first operand's width; Equal: 1-bit result;
+     EqualConstant: the constant fits the operand.  Xor2 and Equal (repaired constructors, C08's mid_max / eqw_max): any operand widths *)
   | PNor2 _ a b => snd b <=? snd a
   | PAnd _ ins | POr _ ins => match ins with [] => false | _ => true end
   | PNor _ ins => match ins with [] => false | x :: t => forallb (fun n => snd n <=? snd x) t end
-  | PEqual r a b => (snd a =? snd b) && (snd r =? 1)
+  | PEqual r _ _ => snd r =? 1
   | PEqualConst r a v => (snd r =? 1) && (0 <=? v) && (v <? 2 ^ snd a) && (v <? 2 ^ 31)
   | PBitOf _ a bits k => (k <? length bits)%nat && (Z.of_nat (length bits) =? snd a) && (snd a <? 2 ^ 31)
   | _ => true
@@ -178,8 +175,8 @@ Definition reg_leaf (g : reginst) : sleaf Reg_state :=
   {| s_in := map fst (reg_ins g); s_out := [fst (rg_q g)];
      s_f := fun st vs => let '(st', q) := reg_clock g st vs in (st', [Some q]) |}.
 
-(* BodyReg tests `e == 1`, Reg.clock loads when e != 0: equal for a 1-bit enable only (finding reg-wide-enable) *)
-Definition enable_ok (g : reginst) : bool := match rg_e g with Some e => snd e =? 1 | None => true end.
+(* BodyReg loads when e != 0, as Reg.clock does (finding reg-wide-enable repaired): enables of any width *)
+Definition enable_ok (g : reginst) : bool := true.
 Definition reg_wf (g : reginst) : bool :=
   (0 <? snd (rg_q g)) && (snd (rg_rq g) =? snd (rg_q g)) && (0 <? snd (rg_d g)) &&
   (match rg_e g with Some e => 0 <? snd e | None => true end) && enable_ok g &&
